@@ -398,7 +398,7 @@ func (P *Prog) expandLiteralTemplates(lits []testLit, depth int) []testLit {
 func (P *Prog) kindDtype(kind string) (string, bool) {
 	n := P.roles.KindByName[kind]
 	for _, fn := range P.Funcs {
-		if fn.Name() != "getType" || fn.Signature.Recv() == nil || !sameNamed(namedOf(fn.Signature.Recv().Type()), n) {
+		if fn.Name() != P.roles.MGetType || fn.Signature.Recv() == nil || !sameNamed(namedOf(fn.Signature.Recv().Type()), n) {
 			continue
 		}
 		var val string
@@ -437,7 +437,7 @@ func (P *Prog) producerRows(r *Result) []producerRow {
 	var rows []producerRow
 	addTest := map[*ssa.Function]bool{}
 	for _, fn := range P.Funcs {
-		if fn.Name() == "addTest" {
+		if fn == P.notConsumer() {
 			addTest[fn] = true
 		}
 	}
